@@ -71,6 +71,7 @@ func run(cx *lib.Ctx) {
 	for k, v := range stats {
 		res.Distribution["gen:"+k] = v
 	}
+	corrParseX(cx)
 }
 
 type caseInput struct {
